@@ -15,9 +15,9 @@ from harness import positions
 from harness import common, gen, refcheck
 
 PID = "C03"
-PR_ITEMS = ["A", "\"X\"", "B$", "7", ";", ","]
-DT_ITEMS = ["12", "HELLO", "\"A,B\"", "", "1.5", "&HFF", "-3", "X Y ", "\"\""]
-DT_KIND = ["n", "s", "s", "e", "n", "n", "n", "s", "s"]
+PR_ITEMS = ["A", "\"X\"", "B$", "7", ";", ",", "-A"]
+DT_ITEMS = ["12", "HELLO", "\"A,B\"", "", "1.5", "&HFF", "-3", "X Y ", "\"\"", "DON'T", "P=Q;R", "(IF THEN)", "\"'\""]
+DT_KIND = ["n", "s", "s", "e", "n", "n", "n", "s", "s", "s", "s", "s", "s"]
 
 
 def s_inp(*vals):
@@ -25,10 +25,11 @@ def s_inp(*vals):
 
 
 def print_programs(rep, wd, thorough):
-    items, seps = [0, 1, 2, 3], [4, 5]
+    items, seps = [0, 1, 2, 3, 6], [4, 5]
     follows = [(a, b) for a in items for b in seps] + [(a, b) for a in seps for b in items] + [(a, b) for a in seps for b in seps]
-    follows += [(0, 1), (1, 0), (1, 2), (2, 1), (1, 3), (3, 1), (1, 1)]
-    seqs = gen.gen_seqs(rep, wd, "print", 6, items + seps, items + seps, follows, 6 if thorough else 4, maxcount=3)
+    # juxtaposition: a quoted string next to anything; a signed item (-A) directly after a string
+    follows += [(0, 1), (1, 0), (1, 2), (2, 1), (1, 3), (3, 1), (1, 1), (6, 1), (1, 6)]
+    seqs = gen.gen_seqs(rep, wd, "print", 7, items + seps, items + seps, follows, 6 if thorough else 4, maxcount=3)
     out = []
     for s in seqs:
         text = ""
